@@ -560,6 +560,24 @@ Section Codec.
     apply digest_eqb_spec in E1. apply N.eqb_eq in E2. destruct Hne; contradiction.
   Qed.
 
+  Theorem file_roundtrip umask nm content :
+    push_file digest H digest_eqb umask (file_descriptor digest H nm content) content
+    = Ok (NFile content (N.ldiff 438 umask)).
+  Proof.
+    unfold push_file, file_descriptor. simpl. rewrite digest_eqb_refl, N.eqb_refl. reflexivity.
+  Qed.
+
+  Theorem file_push_verified umask d blob n :
+    push_file digest H digest_eqb umask d blob = Ok n ->
+    H blob = d_digest digest d /\ N.of_nat (length blob) = d_size digest d /\
+    exists m, n = NFile blob m.
+  Proof.
+    unfold push_file.
+    destruct (digest_eqb (H blob) (d_digest digest d)) eqn:E1; simpl; [|discriminate].
+    destruct (N.of_nat (length blob) =? d_size digest d) eqn:E2; simpl; [|discriminate].
+    intro E. injection E as <-. apply digest_eqb_spec in E1. apply N.eqb_eq in E2. eauto.
+  Qed.
+
   Theorem reproducible_descriptor pre t1 t2 :
     strip_times t1 = strip_times t2 -> descr pre true t1 = descr pre true t2.
   Proof.
